@@ -25,13 +25,31 @@ impl Prop for C09 {
     }
     fn strategy(&self, tier: Tier) -> BoxedStrategy<C09Case> {
         let spec = prop_oneof![10 => spec_strategy(), 2 => source_sink_strategy(), 1 => finite_source_strategy()].boxed();
+        let plain = dripcase_strategy(
+            spec,
+            tier.pick(6_000, 20_000) as u32,
+            tier.pick(60, 150) as usize,
+            prop_oneof![4 => Just(0u16), 1 => 8u16..200].boxed(),
+        );
+        // the shape in which a block is retired with data still inside: more input than the
+        // one-page output holds, the input's writer leaves as soon as everything is fed, and the
+        // output is freed a few samples per round (so it is full whenever the block looks)
+        let clogged = (
+            dripcase_strategy(spec_strategy(), 2_500, 12, prop_oneof![4 => Just(0u16), 1 => 8u16..200].boxed()),
+            prop_oneof![Just(crate::ring::Sz::One), Just(crate::ring::Sz::Two), (0u16..64).prop_map(crate::ring::Sz::Frac)],
+        )
+            .prop_map(|(mut c, free)| {
+                c.close_early = true;
+                c.out_pages = 1;
+                c.drain_free = free;
+                c.drain_feed = crate::ring::Sz::All;
+                for g in c.gens.iter_mut() {
+                    g.len = 1_100 + g.len % 1_400;
+                }
+                c
+            });
         (
-            dripcase_strategy(
-                spec,
-                tier.pick(6_000, 20_000) as u32,
-                tier.pick(60, 150) as usize,
-                prop_oneof![4 => Just(0u16), 1 => 8u16..200].boxed(),
-            ),
+            prop_oneof![7 => plain, 1 => clogged],
             any::<bool>(),
             prop_oneof![5 => Just(None), 1 => (0u8..60).prop_map(Some)],
         )
@@ -128,7 +146,7 @@ impl Prop for C09 {
         }
     }
     fn rule(&self) -> String {
-        "generated: every catalogue block plus sources/sinks (VectorSource, ConstantSource, SignalSource*, NullSink, VectorSink) under the C08 drip schedules (incl. stingy drain phases), optionally with the downstream ends dropped mid-run and with wait probing on. Per-call oracle on every work() call: (a) no over-consume/over-commit refusal; (b) every open stream of the block has exactly two handles after return; (c) a call without stream activity must not report a wait on a harness-owned stream that already satisfies the request - and a call that did move data and then reports such a wait must be followed by a call that makes progress -, and after the harness provides exactly what was asked on that stream alone the next call must make progress or ask for something else; (d) no 6 consecutive no-activity 'Again' answers with nothing changing; (e) once all inputs have ended and are drained the block returns EOF, or waits on an ended stream, or reports eof(); (f) conversely, after a verdict on which a runner retires the block - a wait on an ended input that holds less than what is asked for - no later call may produce output (in 30% of the cases the input writers leave as soon as everything is fed, while the block is still clogged); (g) a finite source (vector, file incl. files ending inside a sample and 24-bit samples, SigMF) whose output is kept drained reports EOF instead of answering Again/Pending for ever. Non-trivial: a call with output full, or input and output both short, or the downstream dropped mid-run; distinct = hash of the case.".into()
+        "generated: every catalogue block plus sources/sinks (VectorSource, ConstantSource, SignalSource*, NullSink, VectorSink) under the C08 drip schedules (incl. stingy drain phases), optionally with the downstream ends dropped mid-run and with wait probing on. Per-call oracle on every work() call: (a) no over-consume/over-commit refusal; (b) every open stream of the block has exactly two handles after return; (c) a call without stream activity must not report a wait on a harness-owned stream that already satisfies the request - and a call that did move data and then reports such a wait must be followed by a call that makes progress -, and after the harness provides exactly what was asked on that stream alone the next call must make progress or ask for something else; (d) no 6 consecutive no-activity 'Again' answers with nothing changing; (e) once all inputs have ended and are drained the block returns EOF, or waits on an ended stream, or reports eof(); (f) conversely, after a verdict on which a runner retires the block - a wait on an ended input that holds less than what is asked for - no later call may produce output (in 30% of the cases the input writers leave as soon as everything is fed, while the block is still clogged; one case in eight is built for it: more input than the one-page output holds, early close, output freed a few samples per round); a wait verdict after which the block's eof() answers true retires it just the same; (g) a finite source (vector, file incl. files ending inside a sample and 24-bit samples, SigMF) whose output is kept drained reports EOF instead of answering Again/Pending for ever. Non-trivial: a call with output full, or input and output both short, or the downstream dropped mid-run; distinct = hash of the case.".into()
     }
     fn assumptions(&self) -> Vec<String> {
         vec![
